@@ -321,10 +321,12 @@ func (m *mWorld) setup() {
 	w2 := &mWriter{name: "W2", w: m.env.W2, conn: "w2"}
 	m.writers = []*mWriter{w1, w2}
 	cache := []int{5, 2000}[s.Draw(2, "wcache")]
+	syncMode := []string{"FULL", "OFF", "NORMAL"}[s.Draw(3, "synchronous")]
 	if err := w1.w.Open(w1.conn, m.path, fmt.Sprintf("PRAGMA page_size=%d", m.pageSize), "PRAGMA journal_mode="+m.jmode, fmt.Sprintf("PRAGMA cache_size=%d", cache)); err != nil {
 		m.c.Troublef("open w1: %v", err)
 	}
-	m.c.Log.Add("W1", "open", "page_size=%d journal=%s cache=%d", m.pageSize, m.jmode, cache)
+	w1.w.Exec(w1.conn, "PRAGMA synchronous="+syncMode)
+	m.c.Log.Add("W1", "open", "page_size=%d journal=%s cache=%d synchronous=%s", m.pageSize, m.jmode, cache, syncMode)
 	m.c.Note("PRAGMA page_size=%d; journal_mode=%s; cache_size=%d", m.pageSize, m.jmode, cache)
 	m.wexec(w1, "CREATE TABLE t (id INTEGER PRIMARY KEY, v TEXT, n INT)")
 	m.wexec(w1, "CREATE INDEX tv ON t (v)")
@@ -340,6 +342,7 @@ func (m *mWorld) setup() {
 		m.c.Troublef("open w2: %v", err)
 	}
 	w2.w.Exec(w2.conn, "PRAGMA journal_mode="+m.jmode)
+	w2.w.Exec(w2.conn, "PRAGMA synchronous="+syncMode)
 }
 
 func (m *mWorld) teardown() {
